@@ -15,6 +15,10 @@ impl FcntlFileStatusCmd {
     }
 }
 
+pub(crate) const F_DUPFD_CLOEXEC: i32 = linux_rust_bindings::fcntl::F_DUPFD_CLOEXEC;
+pub(crate) const F_SETFD: i32 = linux_rust_bindings::fcntl::F_SETFD;
+pub(crate) const FD_CLOEXEC: i32 = 1;
+
 pub const AT_FDCWD: i32 = linux_rust_bindings::fcntl::AT_FDCWD;
 pub const AT_REMOVEDIR: NonNegativeI32 =
     NonNegativeI32::comptime_checked_new(linux_rust_bindings::fcntl::AT_REMOVEDIR);
